@@ -291,6 +291,8 @@ def main(argv=None) -> int:
         seen_keys.add(k)
         if not first and len(confirmed) >= 25:
             continue
+        if len(confirmed) + len(unconfirmed) >= 200:
+            continue  # cap on replay files; the evidence still counts every violation
         path = write_replay(prop, case, v, tier, seed)
         if first and len([1 for _ in confirmed]) < 8:
             okc = confirm_in_fresh_process(prop, path)
